@@ -213,6 +213,8 @@ def compare(B, label, tree, sexpr, assume_extra=(), opts=None, want_modes=True, 
 
 def dest_eq(x, y):
     """equality of two destinations as a guard: file names may hold symbolic characters"""
+    if x is None or y is None:
+        return x is y                 # an output whose tag has no table entry has no destination
     if x[0] != y[0]:
         return False
     if x[0] != "file":
